@@ -552,7 +552,14 @@ def rule_r16(ctx):
     c17.rule_r4(ctx, rid="C01.R16")
 
 
-RULES = [rule_r1, rule_r2, rule_r3, rule_r4, rule_r5, rule_r6, rule_r7, rule_r8, rule_r9, rule_r10, rule_r11, rule_r12, rule_r13, rule_r14, rule_r15, rule_r16]
+def rule_r17(ctx):
+    """Shared with C10.R11: 'a malformed chunk size ... is never delivered under a guessed framing' - every finished control
+    line is judged (converted behind its gate, or refused); none is skipped."""
+    from . import c10
+    c10.rule_r11(ctx, rid="C01.R17")
+
+
+RULES = [rule_r1, rule_r2, rule_r3, rule_r4, rule_r5, rule_r6, rule_r7, rule_r8, rule_r9, rule_r10, rule_r11, rule_r12, rule_r13, rule_r14, rule_r15, rule_r16, rule_r17]
 
 from ..selftest import M, T, V  # noqa: E402
 
